@@ -235,13 +235,18 @@ func (c06Check) Run(u Unit, w *Worker) UnitResult {
 		if si%a.Shards != a.Shard {
 			continue
 		}
-		for _, mode := range []string{"authenticated", "unauthenticated", "rules-changed"} {
+		for _, mode := range []string{"authenticated", "unauthenticated", "rules-changed", "failed-login-afterwards"} {
 
 			setup := []Action{cmdOn(0, "AUTH", "adminpw"),
 				cmdOn(0, "SET", "a1", "x"), cmdOn(0, "SET", "b1", "x")}
 			switch mode {
 			case "authenticated":
 				setup = append(setup, cmdOn(0, append([]string{"ACL", "SETUSER", "u", "on", ">p"}, rules...)...), cmdOn(1, "AUTH", "u", "p"))
+			case "failed-login-afterwards":
+				// authenticated as u, then a login attempt as the (all-powerful) default user is refused: the connection
+				// is still u's and still bound by u's rules
+				setup = append(setup, cmdOn(0, append([]string{"ACL", "SETUSER", "u", "on", ">p"}, rules...)...), cmdOn(1, "AUTH", "u", "p"),
+					cmdOn(1, "AUTH", "default", "not-the-password"), cmdOn(1, "HELLO", "2", "AUTH", "default", "nope"))
 			case "unauthenticated":
 				setup = append(setup, cmdOn(0, append([]string{"ACL", "SETUSER", "u", "on", ">p"}, rules...)...))
 			case "rules-changed":
